@@ -1,0 +1,232 @@
+//go:build verif
+
+// Contracts for package state, checked by /verif/engine (ebuverify).
+// Comments only: with the build tag off this file does not exist.
+package state
+
+// ---------------------------------------------------------------- events
+//@ event setCall := call Store[T].Set
+//@ event deleteCall := call Store[T].Delete
+//@ event clearCall := call Store[T].Clear
+//@ event getCall := call Store[T].Get
+//@ event applierApply := call collectionApplier.applyChange
+//@ event applierClear := call collectionApplier.clear key payload(arg0)
+//@ event applyChangeCall := call (*Materializer).applyChange
+//@ event applyControlCall := call (*Materializer).applyControl
+//@ event onErrorCall := call func(error)
+//@ event onResetCall := call func()
+//@ event onSnapshotCall := call func(start bool)
+//@ event compositeKeyCall := call CompositeKey
+//@ event newChangeCall := call newChangeMessage
+//@ event changeOptCall := call ChangeOption
+//@ event matOptCall := call MaterializerOption
+//@ event busReplay := call eventbus.(*EventBus).Replay
+//@ event lockMat := call lock:Materializer.mu
+//@ immutable {C18,C19} eventbus.StoredEvent.Offset eventbus.StoredEvent.Type eventbus.StoredEvent.Data eventbus.StoredEvent.Timestamp
+
+// ---------------------------------------------------------------- interface contracts
+// Store[T]: user-replaceable key/value storage.  Assumed for foreign
+// implementations (a store touches only its own state and does not call back
+// into the materializer); MemoryStore[T] is verified against the map laws below.
+//@ method Store[T].Set(store, key, value)
+//@   effect opaque
+//@ method Store[T].Delete(store, key)
+//@   effect opaque
+//@ method Store[T].Clear(store)
+//@   effect opaque
+//@ method Store[T].Get(store, key)
+//@   effect opaque
+//@ method Store[T].All(store)
+//@   effect opaque
+// collectionApplier: internal; its only implementation is typedCollectionApplier[T].
+//@ method collectionApplier.applyChange(a, msg)
+//@   effect opaque
+//@ method collectionApplier.clear(a)
+//@   effect opaque
+// Materializer callbacks: user code, assumed not to panic.
+//@ callback func(error)(fn, err)
+//@   effect reentrant
+//@   unlocked
+//@ callback func()(fn)
+//@   effect reentrant
+//@   unlocked
+//@ callback func(start bool)(fn, start)
+//@   effect reentrant
+//@   unlocked
+//@ callback ChangeOption(fn, c)
+//@   effect fields c txID timestamp autoTimestamp entityType
+//@   effectstruct changeConfig
+//@ callback MaterializerOption(fn, c)
+//@   effect fields c onReset onSnapshot onError strictSchema
+//@   effectstruct materializerConfig
+//@ method TypeNamer.StateTypeName(namer)
+//@   effect pure
+//@   ensures result == stateCustomName(dynType(namer))
+
+// ---------------------------------------------------------------- MemoryStore[T]: map laws
+//@ guarded MemoryStore.data by MemoryStore.mu
+//@ level MemoryStore.mu 2
+//@ lockinv MemoryStore.mu(s) [StoreInv] {C18} s.data != nil
+
+//@ func NewMemoryStore
+//@   props C18
+//@   ensures [C18.store.new] result != nil && fresh(result) && result.data != nil && (forall k string :: !in(k, result.data))
+
+//@ func (*MemoryStore[T]).Get
+//@   props C18
+//@   requires s != nil
+//@   ensures [C18.store.get] result1 == acq(in(key, s.data)) && (result1 ==> result0 == acq(s.data[key]))
+
+//@ func (*MemoryStore[T]).Set
+//@   props C18
+//@   requires s != nil
+//@   at unlock:MemoryStore.mu assert [C18.store.set] in(key, s.data) && s.data[key] == value &&
+//@        (forall k string :: k != key ==> in(k, s.data) == acq(in(k, s.data)) && s.data[k] == acq(s.data[k]))
+
+//@ func (*MemoryStore[T]).Delete
+//@   props C18
+//@   requires s != nil
+//@   at unlock:MemoryStore.mu assert [C18.store.delete] !in(key, s.data) &&
+//@        (forall k string :: k != key ==> in(k, s.data) == acq(in(k, s.data)) && s.data[k] == acq(s.data[k]))
+
+//@ func (*MemoryStore[T]).Clear
+//@   props C18
+//@   requires s != nil
+//@   at unlock:MemoryStore.mu assert [C18.store.clear] forall k string :: !in(k, s.data)
+
+// ---------------------------------------------------------------- keys and names
+//@ ghost stateCustomName(Int) String
+//@ ghost implements_TypeNamer(Int) Bool
+//@ func CompositeKey
+//@   props C18 C19
+//@   effect pure
+//@   ensures [C18.key.def] result == entityType + "/" + key
+
+//@ func EntityType
+//@   props C18 C19
+//@   effect pure
+//@   ensures [C19.entityType] result == ite(entity == nil, "nil", ite(implements_TypeNamer(dynType(entity)), stateCustomName(dynType(entity)), tname(dynType(entity))))
+
+//@ func (ChangeMessage).EventTypeName
+//@   props C15
+//@   ensures [C15.const.change] result == "state.ChangeMessage"
+
+//@ func (ControlMessage).EventTypeName
+//@   props C15
+//@   ensures [C15.const.control] result == "state.ControlMessage"
+
+//@ func (*TypedCollection[T]).Get
+//@   props C18
+//@   requires c != nil && c.store != nil
+//@   ensures [C18.collection.key] cnt(getCall) == 1 && lastarg(getCall, 0, Iface) == c.store && lastarg(getCall, 1, String) == c.entityType + "/" + key
+
+//@ func (*TypedCollection[T]).EntityType
+//@   props C18
+//@   requires c != nil
+//@   ensures result == c.entityType
+
+// ---------------------------------------------------------------- appliers
+//@ immutable {C18,C19} typedCollectionApplier.collection TypedCollection.store TypedCollection.entityType Materializer.cfg
+//@ immutable {C18,C19} materializerConfig.onReset materializerConfig.onSnapshot materializerConfig.onError materializerConfig.strictSchema
+//@ initwriter WithOnReset$1 WithOnSnapshot$1 WithOnError$1 WithStrictSchema$1 NewMaterializer NewTypedCollection NewTypedCollectionWithType RegisterCollection
+
+//@ func (*typedCollectionApplier[T]).applyChange
+//@   props C18 C19
+//@   requires a != nil && msg != nil && a.collection != nil && a.collection.store != nil
+//@   ensures [C18.applier.set] (msg.Headers.Operation == "insert" || msg.Headers.Operation == "update") && unjsonOKOf(T, msg.Value) ==>
+//@        result == nil && cnt(setCall) == 1 && cnt(deleteCall) == 0 && lastarg(setCall, 0, Iface) == a.collection.store &&
+//@        lastarg(setCall, 1, String) == msg.Type + "/" + msg.Key && lastarg(setCall, 2) == unjsonOf(T, msg.Value)
+//@   ensures [C19.applier.reject] (msg.Headers.Operation == "insert" || msg.Headers.Operation == "update") && !unjsonOKOf(T, msg.Value) ==>
+//@        result != nil && cnt(setCall) == 0 && cnt(deleteCall) == 0
+//@   ensures [C18.applier.delete] msg.Headers.Operation == "delete" ==>
+//@        result == nil && cnt(deleteCall) == 1 && cnt(setCall) == 0 && lastarg(deleteCall, 0, Iface) == a.collection.store && lastarg(deleteCall, 1, String) == msg.Type + "/" + msg.Key
+//@   ensures [C18.applier.other] msg.Headers.Operation != "insert" && msg.Headers.Operation != "update" && msg.Headers.Operation != "delete" ==>
+//@        result == nil && cnt(setCall) == 0 && cnt(deleteCall) == 0
+//@   ensures [C18.applier.noclear] cnt(clearCall) == 0
+
+//@ func (*typedCollectionApplier[T]).clear
+//@   props C18
+//@   requires a != nil && a.collection != nil && a.collection.store != nil
+//@   ensures [C18.applier.clear] cnt(clearCall) == 1 && lastarg(clearCall, 0, Iface) == a.collection.store && cnt(setCall) == 0 && cnt(deleteCall) == 0
+
+// ---------------------------------------------------------------- Materializer
+//@ guarded Materializer.collections by Materializer.mu
+//@ guarded Materializer.lastOffset by Materializer.mu
+//@ level Materializer.mu 1
+//@ lockinv Materializer.mu(m) [MatInv] {C18,C19} m.collections != nil && (forall k string :: {m.collections[k]} in(k, m.collections) ==> m.collections[k] != nil)
+
+//@ func NewMaterializer
+//@   props C18 C19
+//@   requires forall k int :: {opts[k]} 0 <= k && k < len(opts) ==> opts[k] != nil
+//@   loop 1 invariant [idx] -1 <= rangeindex && rangeindex < len(opts)
+//@   ensures [C18.new] result != nil && fresh(result) && result.cfg != nil && result.collections != nil && (forall k string :: !in(k, result.collections)) && result.lastOffset == ""
+
+//@ func RegisterCollection
+//@   props C18
+//@   requires m != nil && collection != nil
+//@   at unlock:Materializer.mu assert [C18.register.key] in(collection.entityType, m.collections) && payload(m.collections[collection.entityType]) != 0 &&
+//@        fresh(payload(m.collections[collection.entityType])) &&
+//@        (forall k string :: k != collection.entityType ==> in(k, m.collections) == acq(in(k, m.collections)) && m.collections[k] == acq(m.collections[k]))
+
+//@ func (*Materializer).applyChange
+//@   props C18 C19
+//@   requires m != nil && msg != nil && m.cfg != nil
+//@   ensures [C18.route.unknown] !acq(in(msg.Type, m.collections)) ==> cnt(applierApply) == 0 && cnt(onErrorCall) == 0 && ((result != nil) <==> m.cfg.strictSchema)
+//@   ensures [C18.route.known] acq(in(msg.Type, m.collections)) ==> cnt(applierApply) == 1 && lastarg(applierApply, 0, Iface) == acq(m.collections[msg.Type]) &&
+//@        lastarg(applierApply, 1) == msg && result == lastres(applierApply, Iface)
+//@   ensures [C19.route.onError] cnt(onErrorCall) == ite(cnt(applierApply) == 1 && lastres(applierApply, Iface) != nil && m.cfg.onError != nil, 1, 0)
+//@   ensures [C18.route.noclear] cnt(applierClear) == 0
+
+//@ func (*Materializer).applyControl
+//@   props C18 C19
+//@   requires m != nil && msg != nil && m.cfg != nil
+//@   loop 1 invariant [C18.reset.loop] m.collections == loopentry(m.collections) &&
+//@        (forall k string :: {rangeseen[k]} rangeseen[k] ==> in(k, m.collections) && cnt(applierClear, payload(m.collections[k])) >= 1)
+//@        && cnt(onResetCall) == 0 && cnt(onSnapshotCall) == 0 && cnt(applierApply) == 0
+//@   at unlock:Materializer.mu assert [C18.reset.all] forall k string :: {m.collections[k]} in(k, m.collections) ==> cnt(applierClear, payload(m.collections[k])) >= 1
+//@   ensures [C18.control.reset] old(msg.Headers.Control) == "reset" ==> cnt(onResetCall) == ite(old(m.cfg.onReset) != nil, 1, 0) && cnt(onSnapshotCall) == 0
+//@   ensures [C18.control.snapshot] old(msg.Headers.Control) == "snapshot-start" || old(msg.Headers.Control) == "snapshot-end" ==>
+//@        cnt(applierClear) == 0 && cnt(onResetCall) == 0 && cnt(onSnapshotCall) == ite(old(m.cfg.onSnapshot) != nil, 1, 0) &&
+//@        (old(m.cfg.onSnapshot) != nil ==> lastarg(onSnapshotCall, 1, Bool) == (old(msg.Headers.Control) == "snapshot-start"))
+//@   ensures [C18.control.other] old(msg.Headers.Control) != "reset" && old(msg.Headers.Control) != "snapshot-start" && old(msg.Headers.Control) != "snapshot-end" ==>
+//@        cnt(applierClear) == 0 && cnt(onResetCall) == 0 && cnt(onSnapshotCall) == 0
+//@   ensures [C18.control.nochange] cnt(applierApply) == 0
+
+// Apply: one step of the fold.  rootOK/isControl/changeOK are the three JSON
+// decodings the code performs, as functions of event.Data.
+//@ def rootOK(d) unjsonOKOfVar(raw, d)
+//@ def hdr(d) unjsonOfVar(raw, d).Headers
+//@ def isControl(d) unjsonOKOf(ControlHeaders, hdr(d)) && unjsonOf(ControlHeaders, hdr(d)).Control != ""
+//@ def changeOK(d) unjsonOKOf(ChangeMessage, d)
+//@ func (*Materializer).Apply
+//@   props C18 C19
+//@   requires m != nil && event != nil && m.cfg != nil
+//@   ensures [C19.reject.root] !rootOK(event.Data) ==> result != nil && cnt(applyControlCall) == 0 && cnt(applyChangeCall) == 0 && cnt(lockMat) == 0
+//@   ensures [C18.step.control] rootOK(event.Data) && isControl(event.Data) ==> result == nil && cnt(applyControlCall) == 1 && cnt(applyChangeCall) == 0 &&
+//@        lastarg(applyControlCall, 0) == m && lastarg(applyControlCall, 1, *ControlMessage).Headers == unjsonOf(ControlHeaders, hdr(event.Data)) && m.lastOffset == event.Offset
+//@   ensures [C19.reject.change] rootOK(event.Data) && !isControl(event.Data) && !changeOK(event.Data) ==>
+//@        result != nil && cnt(applyControlCall) == 0 && cnt(applyChangeCall) == 0 && cnt(lockMat) == 0
+//@   ensures [C18.step.change] rootOK(event.Data) && !isControl(event.Data) && changeOK(event.Data) ==> cnt(applyControlCall) == 0 && cnt(applyChangeCall) == 1 &&
+//@        lastarg(applyChangeCall, 0) == m && result == lastres(applyChangeCall, Iface) &&
+//@        lastarg(applyChangeCall, 1, *ChangeMessage).Type == unjsonOf(ChangeMessage, event.Data).Type &&
+//@        lastarg(applyChangeCall, 1, *ChangeMessage).Key == unjsonOf(ChangeMessage, event.Data).Key &&
+//@        lastarg(applyChangeCall, 1, *ChangeMessage).Value == unjsonOf(ChangeMessage, event.Data).Value &&
+//@        lastarg(applyChangeCall, 1, *ChangeMessage).Headers == unjsonOf(ChangeMessage, event.Data).Headers
+//@   ensures [C18.offset.ok] result == nil ==> m.lastOffset == event.Offset
+//@   ensures [C19.offset.err] result != nil ==> cnt(lockMat) == 0
+//@   at unlock:Materializer.mu assert [C18.offset.cs] m.lastOffset == event.Offset && m.collections == acq(m.collections)
+
+//@ func (*Materializer).LastOffset
+//@   props C18
+//@   requires m != nil
+//@   ensures [C18.lastOffset] result == acq(m.lastOffset)
+
+//@ func (*Materializer).ApplyChangeMessage
+//@   props C18
+//@   requires m != nil && msg != nil && m.cfg != nil
+//@   ensures cnt(applyChangeCall) == 1 && result == lastres(applyChangeCall, Iface)
+
+//@ func (*Materializer).ApplyControlMessage
+//@   props C18
+//@   requires m != nil && msg != nil && m.cfg != nil
+//@   ensures cnt(applyControlCall) == 1
